@@ -73,6 +73,13 @@ CHECKS = {
         "technique": "contract-based deductive verification: own VC generator over the real AST (early-exit and map rules) + z3 with quantified dict axioms",
         "design_ref": "DESIGN.md section 4 / C13",
     },
+    "C14": {
+        "level": "proof",
+        "level_text": "Fault predicates over a fully symbolic definition; ui_model.Model.__init__, model_validation, python.Model.__init__, _construct_process, cpp.ExtendedKalmanFilter.__init__ proved to raise exactly under their fault conditions, and the four compile entry points proved (with those callee contracts) to raise iff the definition is invalid - all faults, positions and combinations at once.",
+        "level_note": "finite-set cardinality axiom; negative noise through the covariance gate (relative tolerance band); python _construct_sensors' refusing direction by native fault injection only (bounded); " + TB,
+        "technique": "contract-based deductive verification: own VC generator over the real AST (early-exit rule over symbolic dicts/sets) + z3 quantified set theory; native fault injection as replay",
+        "design_ref": "DESIGN.md section 4 / C14",
+    },
     "C19": {
         "level": "proof",
         "level_text": "Every state_model expression of the real strapdown_imu module (obtained by importing it = symbolic execution of straight-line sympy code) is proved equal to a hand-written rigid-body spec for all real inputs with |q|^2 != 0 (z3; ring normal form for the degree-6 position identities); declared symbol sets checked exactly.",
